@@ -16,7 +16,7 @@ Definition pre_step (sh : Z * hdrs) (o : op) : Z * hdrs :=
   let (s, h) := sh in
   match o with
   | OStatus c => (c, h)
-  | OHeader k v => (s, hset k v h)
+  | OHeader k v => (s, hset (canon k) v h)
   | OCookie v => (s, hadd "Set-Cookie" v h)
   | _ => sh
   end.
@@ -51,6 +51,18 @@ Fixpoint before_commit (ops : list op) : list op :=
   | o :: r => if commits o then [] else o :: before_commit r
   end.
 Definition committed (ops : list op) : bool := existsb commits ops.
+
+(* vocabulary for reading the status clause off the reference model *)
+Definition sets_status (o : op) : bool :=
+  match o with OStatus _ | ORedirect _ _ | ONoContent _ | OWriteHeader _ | OHTMLWith _ _ | OFormatted _ _ => true | _ => false end.
+Fixpoint last_status (d : Z) (ops : list op) : Z :=
+  match ops with
+  | [] => d
+  | OStatus c :: r => last_status c r
+  | _ :: r => last_status d r
+  end.
+Fixpoint first_commit (ops : list op) : option op :=
+  match ops with [] => None | o :: r => if commits o then Some o else first_commit r end.
 
 (* middleware order: ascending priority, ties in registration order *)
 Fixpoint sorted_prio (l : list entry) : Prop :=
